@@ -303,6 +303,8 @@ func checkC09(ix *index, add addFn) {
 		}
 		// back-off lower bound
 		if lastEndT >= 0 && fails > 0 {
+			// the first wait of a series is the configured base delay as it is, also
+			// when the maximum is set below it; the maximum caps the doubling
 			want := base
 			for j := 1; j < fails; j++ {
 				want *= 2
@@ -310,9 +312,6 @@ func checkC09(ix *index, add addFn) {
 					want = max
 					break
 				}
-			}
-			if want > max {
-				want = max
 			}
 			gap := ix.tr[c.dialAt].T - lastEndT
 			if gap < want {
